@@ -131,6 +131,53 @@ def comparisons(body):
     return out
 
 
+_SWAP = {"Lt": "Gt", "Gt": "Lt", "Le": "Ge", "Ge": "Le", "Eq": "Eq"}
+_NEG = {"Lt": "Ge", "Ge": "Lt", "Le": "Gt", "Gt": "Le"}
+
+
+def rel(body, op, a_rx, b_rx):
+    """Comparisons that decide `a <op> b` in whichever way they are spelled: `a > b` is also
+    `b < a`, `!(a <= b)` and `!(b >= a)`.  Returns Cmp objects re-oriented to the requested
+    operator: `.a`/`.b` are the roots matching a_rx/b_rx and `.true_edges` are the CFG edges on
+    which `a <op> b` holds.  (`comparisons` already folds `!=` into `Eq`.)"""
+    out = []
+    for c in comparisons(body):
+        forms = [(c.op, c.a, c.b, c.true_edges, c.false_edges),
+                 (_SWAP.get(c.op), c.b, c.a, c.true_edges, c.false_edges)]
+        if c.op in _NEG:
+            n = _NEG[c.op]
+            forms += [(n, c.a, c.b, c.false_edges, c.true_edges),
+                      (_SWAP[n], c.b, c.a, c.false_edges, c.true_edges)]
+        for (o, a, b, te, fe) in forms:
+            if o == op and re.search(a_rx, a) and re.search(b_rx, b):
+                r = Cmp()
+                r.body, r.bb, r.op, r.a, r.b = body, c.bb, o, a, b
+                r.true_edges, r.false_edges, r.line, r.call = te, fe, c.line, c.call
+                out.append(r)
+                break
+    return out
+
+
+def ordered(body, lo_rx, hi_rx, strict=False):
+    """Comparisons deciding `lo <= hi` (or `lo < hi` when strict) in any of their spellings
+    (`lo <= hi`, `hi >= lo`, `!(lo > hi)`, `!(hi < lo)`), as (cmp, lo_root, hi_root, edges on
+    which the relation holds, edges on which it does not)."""
+    res = []
+    yes, no = (("Lt", "Gt"), ("Ge", "Le")) if strict else (("Le", "Ge"), ("Gt", "Lt"))
+    for c in comparisons(body):
+        fwd = re.search(lo_rx, c.a) and re.search(hi_rx, c.b)
+        rev = re.search(hi_rx, c.a) and re.search(lo_rx, c.b)
+        if fwd and c.op == yes[0]:
+            res.append((c, c.a, c.b, c.true_edges, c.false_edges))
+        elif rev and c.op == yes[1]:
+            res.append((c, c.b, c.a, c.true_edges, c.false_edges))
+        elif fwd and c.op == no[0]:
+            res.append((c, c.a, c.b, c.false_edges, c.true_edges))
+        elif rev and c.op == no[1]:
+            res.append((c, c.b, c.a, c.false_edges, c.true_edges))
+    return res
+
+
 def find_cmp(body, op, ra_rx, rb_rx, symmetric=True):
     res = []
     for c in comparisons(body):
